@@ -364,6 +364,8 @@ class Run:
         if isinstance(v, Conc):
             if isinstance(v.obj, tuple) and v.obj[0] == "emptydict" and isinstance(ty, TDict):
                 return Val(ty, ty.empty())
+            if isinstance(v.obj, tuple) and v.obj[0] == "emptylist" and isinstance(ty, TSeq):
+                return Val(ty, z3.Empty(ty.sort()))
             if isinstance(ty, TObj) or ty is None:
                 return v
             raise EngineError(f"cannot coerce {v} to {ty}")
@@ -940,7 +942,7 @@ class Run:
             return Val(ty, z3.Concat(*parts) if len(parts) > 1 else parts[0])
         items = [self.ev(e, fr) for e in node.elts]
         if not items:
-            raise EngineError(f"empty list display without type (line {node.lineno}); declare the variable in the sidecar `locals`")
+            return Conc(("emptylist",))
         return ops.seq_from_items(self, items, None)
 
     def ex_Dict(self, node, fr):
